@@ -119,6 +119,13 @@ def main():
     # one name declared twice by declarations of different kinds
     for name, text, planted in gfam.duplicate_kinds():
         cases.append({'kind': 'invalid', 'name': 'duplicate-kinds', 'cls': 'duplicate-declaration:other-kind', 'detail': name, 'planted': planted, 'text': text})
+    # every digraph on three selects / three entities naming each other, under every order of declaration: invalid exactly when it has a cycle
+    for kind in ('select', 'subtype'):
+        for name, text, ok in gfam.reference_digraphs(kind, args.tier):
+            if ok:
+                cases.append({'kind': 'valid', 'name': 'digraph/' + name, 'text': text})
+            else:
+                cases.append({'kind': 'invalid', 'name': 'reference-digraphs', 'cls': 'circular-%s-graph' % kind, 'detail': name, 'planted': 'zq_a', 'text': text})
     # a circular subtype graph with another entity hanging off it
     for name, text, planted in gfam.cyclic_subtypes():
         cases.append({'kind': 'invalid', 'name': 'cyclic-subtypes', 'cls': 'circular-subtype-graph', 'detail': name, 'planted': planted, 'text': text})
